@@ -19,7 +19,23 @@ type c07bScenario struct {
 func genC07B(t *rapid.T) c07bScenario {
 	fan, _ := genFan(t, fanOpts{monotone: true, alwaysRpm: true, kinds: []string{"hwmon", "hwmon", "hwmon", "file"}}) // 512 cycles per case: no script based fans here
 	fan.RpmAvg0 = 1500
-	return c07bScenario{Fan: fan, Order: rapid.Permutation(seq(0, 255)).Draw(t, "order")}
+	if rapid.IntRange(0, 2).Draw(t, "style") > 0 {
+		return c07bScenario{Fan: fan, Order: rapid.Permutation(seq(0, 255)).Draw(t, "order")}
+	}
+	// a temperature-like trajectory: small steps up and down, plateaus, an occasional jump
+	cv := rapid.IntRange(0, 255).Draw(t, "cv0")
+	order := make([]int, 0, 256)
+	for len(order) < 256 {
+		switch d := rapid.SampledFrom([]int{-2, -1, -1, -1, 0, 1, 1, 1, 2, 99}).Draw(t, "d"); d {
+		case 99:
+			cv = rapid.IntRange(0, 255).Draw(t, "jump")
+		default:
+			cv += d
+		}
+		cv = max(0, min(255, cv))
+		order = append(order, cv)
+	}
+	return c07bScenario{Fan: fan, Order: order}
 }
 
 func runC07B(t *testing.T, sc c07bScenario) verdict {
@@ -38,28 +54,49 @@ func runC07B(t *testing.T, sc c07bScenario) verdict {
 	if len(res.Obs) != 256 || len(twin.Obs) != 256 {
 		return verdict{vs: []sim.Violation{{Key: "harness", Msg: fmt.Sprintf("expected 256 cycles, saw %d / %d (%s)", len(res.Obs), len(twin.Obs), res.RunErr)}}}
 	}
+	// every two cycles of the history are compared: c_i <= c_j  =>  request_i <= request_j and written_i <= written_j
+	// (per curve value the smallest and largest observation; ascending over the curve values)
+	const none = -1 << 30
+	minW, maxW, minR, maxR := make([]int, 256), make([]int, 256), make([]int, 256), make([]int, 256)
+	at := make([]int, 256)
+	for cv := range minW {
+		minW[cv], maxW[cv], minR[cv], maxR[cv] = -none, none, -none, none
+	}
 	W, R := make([]int, 256), make([]int, 256)
 	for i, cv := range sc.Order {
-		W[cv], R[cv] = res.Obs[i].Pwm, twin.Obs[i].Pwm
+		w, r := res.Obs[i].Pwm, twin.Obs[i].Pwm
+		W[cv], R[cv] = w, r
+		minW[cv], maxW[cv] = min(minW[cv], w), max(maxW[cv], w)
+		minR[cv], maxR[cv] = min(minR[cv], r), max(maxR[cv], r)
+		at[cv] = i
 	}
 	var vs []sim.Violation
-	for cv := 1; cv < 256; cv++ {
-		if R[cv] < R[cv-1] {
-			vs = append(vs, sim.Violation{Key: "request-decreases-with-curve", Msg: fmt.Sprintf("curve %d -> request %d, curve %d -> request %d", cv-1, R[cv-1], cv, R[cv])})
+	hiW, hiR, hiWcv, hiRcv := none, none, -1, -1
+	for cv := 0; cv < 256; cv++ {
+		if maxW[cv] == none {
+			continue // this curve value does not occur in the history
+		}
+		if minR[cv] < hiR || minR[cv] != maxR[cv] {
+			if len(vs) == 0 {
+				vs = append(vs, sim.Violation{Key: "request-decreases-with-curve", Msg: fmt.Sprintf("curve %d -> request %d..%d, although curve %d -> request %d earlier or later in the same history (cycle %d)", cv, minR[cv], maxR[cv], hiRcv, hiR, at[cv])})
+			}
+		}
+		if minW[cv] < hiW || minW[cv] != maxW[cv] {
+			vs = append(vs, sim.Violation{Key: "written-decreases-with-curve", Msg: fmt.Sprintf("curve %d -> written %d..%d, although curve %d -> written %d in the same history (cycle %d; requests %d..%d)", cv, minW[cv], maxW[cv], hiWcv, hiW, at[cv], minR[cv], maxR[cv])})
 			break
 		}
-	}
-	for cv := 1; cv < 256; cv++ {
-		if W[cv] < W[cv-1] {
-			vs = append(vs, sim.Violation{Key: "written-decreases-with-curve", Msg: fmt.Sprintf("curve %d -> written %d, curve %d -> written %d (requests %d, %d)", cv-1, W[cv-1], cv, W[cv], R[cv-1], R[cv])})
-			break
+		if maxW[cv] > hiW {
+			hiW, hiWcv = maxW[cv], cv
+		}
+		if maxR[cv] > hiR {
+			hiR, hiRcv = maxR[cv], cv
 		}
 	}
 	distinct := map[int]bool{}
 	for _, w := range W {
 		distinct[w] = true
 	}
-	nt := !(R[0] == 0 && R[255] == 255) || len(distinct) < 256
+	nt := !(R[0] == 0 && R[255] == 255) || len(distinct) < 256 || len(distinct) > 8
 	return verdict{vs: vs, nontrivial: nt, labels: []string{"controller-sweep", "kind:" + sc.Fan.Kind}, outcome: map[string]any{"R0": R[0], "R255": R[255], "W0": W[0], "W255": W[255], "distinctWritten": len(distinct)}}
 }
 
